@@ -6,7 +6,8 @@
 From Coq Require Import Permutation.
 From PlzV Require Import Base.Harness Model.C08 Model.C08_Set Model.C08_Spec Gen.RuleHashProg Proof.C07.
 From PlzV Require Import Model.C07_Src Proof.C07_Src.
-From PlzV Require Gen.C07SourceHash.
+From PlzV Require Import Model.C07_Provide Proof.C07_Provide Model.C07_Hasher Proof.C07_Hasher.
+From PlzV Require Gen.C07SourceHash Gen.C07Provide Gen.C07Hasher.
 
 (* For every hash function, for the rule hash (runtime = false) and the runtime hash alike: any two presentations
    of one well-formed target - every map-valued attribute (named srcs, named outs, named data, provides, entry
@@ -118,3 +119,121 @@ Example C07_src_exported_order_is_observable :
        graph_wf g -> graph_same g g' ->
        option_map H (src_stream PH C07SourceHash.prog fuel g top) = option_map H (src_stream PH C07SourceHash.prog fuel g' top)).
 Proof. exact exported_order_is_observable. Qed.
+
+(* ------------------------------------------------------------------------------------------------------------------
+   Require / provide.  `C07Provide.provide_range` is the loop of BuildTarget.provideFor as regenerated from the source
+   (which collection it ranges over).  target.Provides is a Go map: a graph is presented with, for EVERY target, that
+   map listed in some order (pgraph_same; keys distinct: pgraph_wf).  For every fuel, every top-level target, every
+   dependency and every label: recursivelyProvideFor yields the same labels IN THE SAME ORDER in both presentations -
+   and runs out of fuel in both or in neither.  (These labels are what IterInputs substitutes for a dependency, i.e. the
+   table g_provide of the source-hash statement above.) *)
+Definition C07_provide_statement : Prop :=
+  forall (g g' : pgraph) (target dependency d : label) (fuel : nat),
+    pgraph_wf g -> pgraph_same g g' ->
+    rec_provide C07Provide.provide_range g target dependency fuel d = rec_provide C07Provide.provide_range g' target dependency fuel d.
+
+Theorem C07_provide_full : C07_provide_statement.
+Proof. exact C07_provide_full_proof. Qed.
+Print Assumptions C07_provide_full.
+
+(* Non-vacuity: lib provides three languages, listed in two orders; t requires two of them in the order lb, la; the
+   label provided for lb is itself a provider (chain of length 2), q is t's tool (never replaced).  Both presentations
+   yield r2, p - the order of t's Requires - with fuel 3 and run out of fuel at 2. *)
+Example C07_provide_nonvacuous :
+  let L n := Label [] (s "") n in
+  let mk prov := [(L (s "t"), PNode [] [s "lb"; s "la"] [] [L (s "q")]);
+                  (L (s "lib"), PNode prov [] [] []);
+                  (L (s "r"), PNode [(s "lb", [L (s "r2")])] [] [] []);
+                  (L (s "p"), empty_pnode); (L (s "q"), PNode [(s "la", [L (s "p")])] [] [] []); (L (s "r2"), empty_pnode)] in
+  let g := mk [(s "la", [L (s "p")]); (s "lb", [L (s "r")]); (s "lc", [L (s "q")])] in
+  let g' := mk [(s "lc", [L (s "q")]); (s "lb", [L (s "r")]); (s "la", [L (s "p")])] in
+  pgraph_wf g /\ pgraph_same g g' /\ g <> g'
+  /\ rec_provide C07Provide.provide_range g (L (s "t")) (L (s "t")) 3 (L (s "lib")) = Some [L (s "r2"); L (s "p")]
+  /\ rec_provide C07Provide.provide_range g' (L (s "t")) (L (s "t")) 3 (L (s "lib")) = Some [L (s "r2"); L (s "p")]
+  /\ rec_provide C07Provide.provide_range g (L (s "t")) (L (s "t")) 2 (L (s "lib")) = None
+  /\ rec_provide C07Provide.provide_range g (L (s "t")) (L (s "t")) 3 (L (s "q")) = Some [L (s "q")].
+Proof.
+  cbv zeta. split; [vm_compute; reflexivity|]. split; [|split; [discriminate | repeat split; vm_compute; reflexivity]].
+  repeat (apply Forall2_cons; [split; [reflexivity|] | ]); try apply Forall2_nil; try apply pnode_same_refl.
+  repeat split; try reflexivity. cbn.
+  apply (Permutation_cons_app [_; _] []). cbn. apply perm_swap.
+Qed.
+
+(* The theorem is about the loop that exists: a loop that ranges over the MAP is order dependent. *)
+Example C07_provide_range_over_map_is_observable :
+  ~ (forall (self : label) (t t' o : pnode), pnode_wfb t = true -> pnode_same t t' ->
+       provide_for PRangeProvides self t o = provide_for PRangeProvides self t' o).
+Proof. exact range_over_map_is_order_dependent. Qed.
+
+(* ------------------------------------------------------------------------------------------------------------------
+   The memo of the path hasher.  `C07Hasher.memo_guarded` is regenerated from PathHasher.Hash (is the store into
+   hasher.memo inside `if err == nil`).  For every digest function TH of the (unchanged) tree and every history of
+   Hash / CopyHash / MoveHash calls on one hasher, starting from the empty memo, in which the raw computations that
+   SUCCEED return TH of their path (those that fail return an arbitrary partial digest; a path may be missing): every
+   digest Hash returns with a nil error is TH of the path the entry stands for - never a partial digest.  In
+   particular, after a failed call the next call on the same path returns the true digest or an error. *)
+Definition C07_memo_statement : Prop :=
+  forall (TH : str -> str) (h : list hop), Forall (faithful_op TH) h ->
+    Forall (res_ok TH) (snd (hrun C07Hasher.memo_guarded [] h)).
+
+Theorem C07_memo_full : C07_memo_statement.
+Proof. exact C07_memo_full_proof. Qed.
+Print Assumptions C07_memo_full.
+
+(* Non-vacuity: a failed call, the successful retry, a hit, a copy, a hit on the copy (digest of the ORIGIN), a forced
+   recalculation that fails and leaves the memo alone, a move out of plz-out/tmp (the source entry is dropped: the
+   next call on it recomputes). *)
+Example C07_memo_nonvacuous :
+  let TH p := s "#" ++ p in
+  let h := [HHash (s "d") false (RawErr (s "partial")); HHash (s "d") false (RawOk (TH (s "d"))); HHash (s "d") false RawMissing;
+            HCopy (s "d") (s "e"); HHash (s "e") false (RawOk (TH (s "e"))); HHash (s "d") true (RawErr (s "partial2"));
+            HHash (s "d") false (RawErr (s "partial3"));
+            HHash (s "plz-out/tmp/x") false (RawOk (TH (s "plz-out/tmp/x"))); HMove (s "plz-out/tmp/x") (s "plz-out/gen/x");
+            HHash (s "plz-out/gen/x") false RawMissing; HHash (s "plz-out/tmp/x") false RawMissing] in
+  Forall (faithful_op TH) h
+  /\ snd (hrun C07Hasher.memo_guarded [] h)
+     = [ResErr; ResOk (s "d") (s "#d"); ResOk (s "d") (s "#d"); ResNone; ResOk (s "d") (s "#d"); ResErr; ResOk (s "d") (s "#d");
+        ResOk (s "plz-out/tmp/x") (s "#plz-out/tmp/x"); ResNone; ResOk (s "plz-out/tmp/x") (s "#plz-out/tmp/x"); ResErr].
+Proof. cbv zeta. split; [repeat constructor | vm_compute; reflexivity]. Qed.
+
+(* The guard is what the theorem rests on: without it a partial digest is returned with a nil error. *)
+Example C07_memo_unguarded_is_refuted :
+  ~ (forall (TH : str -> str) (h : list hop), Forall (faithful_op TH) h -> Forall (res_ok TH) (snd (hrun false [] h))).
+Proof. exact unguarded_memo_returns_partial_digest. Qed.
+
+(* ------------------------------------------------------------------------------------------------------------------
+   The extended attributes.  `C07Hasher.xattr_rule` is NewPathHasher's derivation of the attribute name from the
+   algorithm and `C07Hasher.algos` the algorithms core.NewBuildState creates hashers for, both regenerated from the
+   source.  For every digest function TH (algorithm, path) and every history of Hash calls by fresh hashers of those
+   algorithms on paths under plz-out/ (any mixture of recalc / store flags), starting from files without attributes:
+   every call returns the digest of ITS OWN algorithm - what one invocation leaves behind is what the next one would
+   compute.  (isolated; by isolated_iff_names_distinct this holds iff the names are pairwise distinct.) *)
+Definition C07_xattr_statement : Prop := isolated C07Hasher.xattr_rule C07Hasher.algos.
+
+Theorem C07_xattr_full : C07_xattr_statement.
+Proof. exact C07_xattr_full_proof. Qed.
+Print Assumptions C07_xattr_full.
+
+(* Non-vacuity: the generated names; the build of a target pinned with a blake3 hash (sha1, sha256, blake3 checkers
+   store their digests on the output), then a second invocation reading with sha256 and blake3. *)
+Example C07_xattr_nonvacuous :
+  let TH a p := a ++ s ":" ++ p in
+  let o := s "plz-out/gen/pinned.txt" in
+  let h := [XHash (s "sha1") o true true (TH (s "sha1") o); XHash (s "sha256") o true true (TH (s "sha256") o);
+            XHash (s "blake3") o true true (TH (s "blake3") o); XHash (s "sha256") o false true (TH (s "sha256") o);
+            XHash (s "blake3") o false false (TH (s "blake3") o); XHash (s "crc32") o false false (TH (s "crc32") o)] in
+  map (xattr_name C07Hasher.xattr_rule) C07Hasher.algos
+    = [s "user.plz_hash"; s "user.plz_hash_sha256"; s "user.plz_hash_crc32"; s "user.plz_hash_crc64"; s "user.plz_hash_blake3"; s "user.plz_hash_xxhash"]
+  /\ Forall (xfaithful C07Hasher.algos TH) h
+  /\ map snd (snd (xrun C07Hasher.xattr_rule [] h))
+     = [s "sha1:" ++ o; s "sha256:" ++ o; s "blake3:" ++ o; s "sha256:" ++ o; s "blake3:" ++ o; s "crc32:" ++ o]
+  /\ length (fst (xrun C07Hasher.xattr_rule [] h)) = 3%nat.
+Proof.
+  cbv zeta. split; [vm_compute; reflexivity|]. split; [|split; vm_compute; reflexivity].
+  repeat (constructor; [split; [vm_compute; tauto | reflexivity]|]). constructor.
+Qed.
+
+(* The condition is necessary as well as sufficient, for ANY rule and ANY list of distinct algorithms. *)
+Example C07_xattr_isolated_iff_distinct :
+  forall (r : xrule) (algos : list str), nodupb algos = true -> (isolated r algos <-> names_distinct r algos = true).
+Proof. exact isolated_iff_names_distinct. Qed.
